@@ -95,6 +95,13 @@ impl LuvBounds {
                 }
             }
         }
+
+        // No boundary is hit when the gamut has collapsed to a point (black
+        // at a hue that runs along the remaining lines).
+        if min_chroma == f64::MAX {
+            min_chroma = 0.0;
+        }
+
         T::from_f64(min_chroma)
     }
 
